@@ -66,6 +66,8 @@ def run_property(pid, tier, seed):
     units = load_units()
     sel = []  # (unit, obligation)
     for u in units.values():
+        if u.get('tier') == 'thorough' and tier != 'thorough':
+            continue
         for ob in u['obligations']:
             if pid in ob['props'] and tier_ok(ob, tier):
                 sel.append((u, ob))
@@ -243,15 +245,22 @@ def finish(pid, tier, seed, sel, results, cmds, solver_time, assumptions, units,
             violations.append((u, ob, r))
         elif r['status'] == 'undecided':
             undecided.append((ob, r))
-    # KNOWN-FINDING lines produced by carve-out witnesses (unit level)
+    # Known findings with a carve-out in a contract: the obligation is proved on the complement of the carved input class;
+    # the listed witness is replayed natively on every run. While it still fails the KNOWN-FINDING line is printed; once it
+    # no longer fails the line disappears (the carve-out should then be removed from the contract).
     for u in units:
         for kf in u.get('known_finding_witnesses', []):
-            if kf['property'] != pid:
+            if pid not in kf['properties']:
                 continue
-            listed = [f for f in findings if f.get('property') == pid and f.get('carve') == kf['carve']]
-            if listed and kf.get('still_fails', True):
+            listed = [f for f in findings if f.get('property') in kf['properties'] and f.get('carve') == kf['carve']]
+            if not listed:
+                # a carve-out that is not in the committed list is a contract weakened without a record: refuse to decide
+                undecided.append(({'id': '%s.carve.%s' % (u['unit'], kf['carve'])}, {'why': 'carve-out %s is not listed in KNOWN_FINDINGS.txt' % kf['carve']}))
+                continue
+            from . import replay as replay_mod
+            confirmed, text = replay_mod.run_replay({'replay': kf['recipe'], 'inputs': None})
+            if confirmed:
                 known_lines.append('KNOWN-FINDING: property=%s %s' % (pid, listed[0]['line'][len('finding:'):].strip()))
-
     os.makedirs(os.path.join(VERIF, 'replay'), exist_ok=True)
     out_lines = []
     downgraded = []
